@@ -63,10 +63,13 @@ RAW = {
                 # one argument slot with a declared mode followed by slots without (user-defined \annot{text}{..})
                 'A': [('{', 'text'), '{'], 'S': [('{', 'math'), '[', '{'],
                 # second mandatory argument must follow without whitespace (allow_pre_space=False on an expression)
-                'N': ['{', '{nopre']},
+                'N': ['{', '{nopre'],
+                # \X switches comments off for what follows it in the same group (make_after_parsing_state_delta)
+                'X': []},
         envs={'e': dict(args=['[', '{'], body='nodes'), 'q': dict(args=[], body='math'),
               'p': dict(args=['*'], body='nodes')},
         specials={'~': [], '--': [], '---': [], '&': [], '!': ['{']},
+        sticky={'X': {'en_comments': False}},
         unknown_macro=True, unknown_env=True),
     # only for checks that drive the real parser alone (kinds not modelled in Parser.tla)
     'kext': dict(
@@ -104,7 +107,8 @@ def describe(name):
                  envs={k: dict(args=[parse_argspec(x) for x in v['args']], body=v['body'])
                        for k, v in raw['envs'].items()},
                  specials={k: [parse_argspec(x) for x in v] for k, v in raw['specials'].items()},
-                 unknown_macro=raw['unknown_macro'], unknown_env=raw['unknown_env'], untranslatable=[])
+                 unknown_macro=raw['unknown_macro'], unknown_env=raw['unknown_env'], untranslatable=[],
+                 sticky=raw.get('sticky', {}))
     _desc_cache[name] = d
     return d
 
@@ -160,9 +164,22 @@ def build(name, alias_spelling=False):
         return build_dynamic(name)
     d = describe(name)
     db = LatexContextDb()
+    from pylatexenc.latexnodes import ParsingStateDelta
+    REAL_ATTR = {'en_comments': 'enable_comments', 'en_math': 'enable_math', 'en_groups': 'enable_groups',
+                 'en_specials': 'enable_specials', 'en_envs': 'enable_environments', 'en_macros': 'enable_macros'}
+
+    class StickyMacroSpec(MacroSpec):
+        def __init__(self, name, args, fields):
+            super(StickyMacroSpec, self).__init__(name, args)
+            self._verif_fields = dict((REAL_ATTR[f], x) for f, x in fields.items())
+
+        def make_after_parsing_state_delta(self, parsed_node, latex_walker):
+            return ParsingStateDelta(set_attributes=dict(self._verif_fields))
+    sticky = d.get('sticky', {})
     db.add_context_category(
         'model',
-        macros=[MacroSpec(k, [_real_argspec(a) for a in v]) for k, v in d['macros'].items()],
+        macros=[(StickyMacroSpec(k, [_real_argspec(a) for a in v], sticky[k]) if k in sticky else
+                 MacroSpec(k, [_real_argspec(a) for a in v])) for k, v in d['macros'].items()],
         environments=[EnvironmentSpec(k, [_real_argspec(a) for a in v['args']],
                                       is_math_mode=(v['body'] == 'math')) for k, v in d['envs'].items()],
         specials=[SpecialsSpec(k, [_real_argspec(a) for a in v]) for k, v in d['specials'].items()])
@@ -337,12 +354,16 @@ def tla_defs(name, prefix='', only=None):
     es = _fun([(tla_seq(k), '[args |-> %s, body |-> "%s"]' % (_sig_tla(v['args']), v['body']))
                for k, v in sorted(envs.items())], empty='[x \\in {} |-> [args |-> <<>>, body |-> "nodes"]]')
     ss = _fun([(tla_seq(k), _sig_tla(v)) for k, v in sorted(d['specials'].items()) if v])
-    return ('%sMacroSigDef == %s\n%sEnvSigDef == %s\n%sSpecSigDef == %s\n' % (prefix, ms, prefix, es, prefix, ss))
+    sticky = {k: v for k, v in d.get('sticky', {}).items() if k in macros}
+    sk = _fun([(tla_seq(k), '[' + ', '.join('%s |-> %s' % (f, tla_seq(x)) for f, x in sorted(v.items())) + ']')
+               for k, v in sorted(sticky.items())], empty='[x \\in {} |-> [en_comments |-> TRUE]]')
+    return ('%sMacroSigDef == %s\n%sEnvSigDef == %s\n%sSpecSigDef == %s\n%sStickyDef == %s\n' % (
+        prefix, ms, prefix, es, prefix, ss, prefix, sk))
 
 
 def cfg_constants(name, prefix=''):
     d = describe(name)
-    return ('  MacroSig <- %sMacroSigDef\n  EnvSig <- %sEnvSigDef\n  SpecSig <- %sSpecSigDef\n'
+    return ('  MacroSig <- %sMacroSigDef\n  EnvSig <- %sEnvSigDef\n  SpecSig <- %sSpecSigDef\n  Sticky <- %sStickyDef\n'
             '  HasUnknownMacro = %s\n  HasUnknownEnv = %s\n' % (
-                prefix, prefix, prefix, 'TRUE' if d['unknown_macro'] else 'FALSE',
+                prefix, prefix, prefix, prefix, 'TRUE' if d['unknown_macro'] else 'FALSE',
                 'TRUE' if d['unknown_env'] else 'FALSE'))
